@@ -3,7 +3,7 @@
 import json, glob, os, re
 os.chdir(os.path.dirname(os.path.abspath(__file__)) + '/..')
 rows = []
-for d in sorted(glob.glob('seeded/*/')):
+for d in sorted(glob.glob('seeded/[A-Z]*/')):
     m = json.load(open(d + 'meta.json'))
     c = m['confirmed_by_me']; det = m['detection']
     ok = all([c.get('demo_passes_without_patch'), c.get('patch_applies'), c.get('builds_with_patch'), c.get('demo_fails_with_patch')])
